@@ -13,9 +13,15 @@
    removes exactly two boxes and the outer loop terminates.
    Partial: totality (no InterchangerError / IndexError / AxiomError from unsnake)
    for unobstructed snakes; the full statements are `snake_removal_total_stmt` and
-   `normal_form_total_stmt`.  Not proved in Coq: equality of denotations under
-   rigid functors (`snake_removal_sound_stmt`), checked by the oracle of
-   harness/props/c07.py on every yielded step. *)
+   `normal_form_total_stmt`.
+   Semantic soundness (second half of this file, Snake/SnakeWire.v + SnakeSem.v):
+   PROVED for all inputs and any obstructions, over the typed strict monoidal
+   model record of C05 / C06 (Sem/Monoidal.v) extended with the two snake
+   equations -- every diagram yielded by unsnake / every diagram of every trace
+   prefix / the normal form denotes the same morphism as the input; with two
+   concrete models (counting proper boxes; qubit tensors over Z[i]).  The first,
+   untyped formulation `snake_removal_sound_stmt` (SnakeLemmas.rigid_laws) is
+   proved as stated too (`snake_removal_sound_untyped`, Snake/SnakeSemUntyped.v). *)
 From Coq Require Import List ZArith Bool.
 Import ListNotations.
 Require Import DV.Common.Base DV.Core.Diagram DV.Core.WF DV.Core.Rewriting
@@ -129,10 +135,143 @@ Theorem snake_removal_total_partial : forall d cup cap ls, wf d -> rigid_ok d ->
 Proof. exact SnakeLemmas.snake_removal_total_partial. Qed.
 Print Assumptions snake_removal_total_partial.
 
-(* FULL statement of semantic soundness, kept visible, NOT asserted and not proved
-   in Coq: in every strict rigid monoidal category (SnakeLemmas.rigid_laws: category
-   and strict-monoidal laws, interchange law, the two snake equations for
-   type-matched pairs) every diagram of every trace prefix denotes the same
-   morphism as the input.  It is checked by the oracle on every yielded step under
-   two random rigid functors into integer tensors. *)
+(* The first formulation of semantic soundness: in every strict rigid monoidal
+   category given as an untyped carrier with a typing relation (SnakeLemmas.rigid_model,
+   laws SnakeLemmas.rigid_laws: category and strict-monoidal laws for `rm_ok`-typed
+   morphisms, interchange law, the two snake equations for type-matched pairs)
+   every diagram of every trace prefix denotes the same morphism as the input.
+   No longer only a statement: PROVED below as `snake_removal_sound_untyped`, next to
+   the typed formulation `snake_removal_sound` over the record shared with C05 / C06. *)
 Definition snake_removal_sound_stmt : Prop := SnakeLemmas.snake_removal_sound_stmt.
+
+(* ================================================================ semantic soundness, PROVED *)
+Require Import DV.Sem.Monoidal DV.Sem.Instances DV.Snake.SnakeWire DV.Snake.SnakeSem.
+Require DV.Tensor.NumpyModel DV.Tensor.Tensor DV.TFun.TFunMonoidal.
+Require Import DV.Snake.SnakeTensorSem DV.Snake.SnakeSemUntyped.
+
+(* the index bookkeeping of unsnake, FULL, any obstructions: when the two loops
+   complete on what find_snake selected, the indices handed to the deletion are
+   adjacent and hold a Cap and a matching Cup of the current diagram, the cup one
+   wire to the left (left snake) / right (right snake) of the cap -- what is
+   deleted is a snake, not a circle and not two unrelated boxes *)
+Theorem unsnake_pair_adjacent : forall d cup cap lo ro ls s2, wf d -> rigid_ok d ->
+  find_snake d = Some (cup, cap, (lo, ro), ls) ->
+  unsnake_loops d cup cap lo ro ls = (s2, None) ->
+  exists c bcap oc bcup ou,
+    us_cap s2 = Z.of_nat c /\ us_cup s2 = Z.of_nat c + 1 /\
+    nth_error (dboxes (us_d s2)) c = Some bcap /\ nth_error (doffs (us_d s2)) c = Some oc /\
+    nth_error (dboxes (us_d s2)) (S c) = Some bcup /\ nth_error (doffs (us_d s2)) (S c) = Some ou /\
+    is_cap bcap = true /\ is_cup bcup = true /\ bdom bcup = rev (bcod bcap) /\
+    ou = (if ls then oc - 1 else oc + 1).
+Proof. exact SnakeWire.unsnake_pair_adjacent. Qed.
+Print Assumptions unsnake_pair_adjacent.
+
+(* consequence for totality, any obstructions: once the two loops have completed,
+   the deletion is never refused (no AxiomError from `layers[:cap] >> layers[cup+1:]`);
+   what remains open in `snake_removal_total_stmt` is only that every interchange
+   requested by the loops is legal *)
+Theorem unsnake_deletion_accepted : forall d cup cap lo ro ls s2, wf d -> rigid_ok d ->
+  find_snake d = Some (cup, cap, (lo, ro), ls) ->
+  unsnake_loops d cup cap lo ro ls = (s2, None) ->
+  exists d', delete_pair (us_d s2) (us_cap s2) (us_cup s2) = Ok d'.
+Proof. exact SnakeWire.unsnake_deletion_accepted. Qed.
+Print Assumptions unsnake_deletion_accepted.
+
+(* `snake_eqs Mod F Q`: for every Cap : [] -> [a; b] and Cup : [b; a] -> [] in Q,
+     (id_b (x) F cap) ; (F cup (x) id_b) = id_b   and   (F cap (x) id_a) ; (id_a (x) F cup) = id_a.
+   One call of unsnake on what find_snake selected, ANY obstructions, whether or
+   not it then raises: the current diagram and every yielded diagram (interchange
+   steps, the diagram with the pair deleted) denote what the input denotes, in
+   every strict monoidal category with such an interpretation of the boxes *)
+Theorem unsnake_sound : forall (Mod : monoidal_model) (F : box -> M Mod),
+  respects_types Mod F -> snake_eqs Mod F (fun _ => True) ->
+  forall d cup cap lo ro ls d' ys e, wf d -> rigid_ok d ->
+  find_snake d = Some (cup, cap, (lo, ro), ls) ->
+  unsnake d cup cap lo ro ls = (d', ys, e) ->
+  Monoidal.interp Mod F d' = Monoidal.interp Mod F d /\
+  Forall (fun x => Monoidal.interp Mod F x = Monoidal.interp Mod F d) ys.
+Proof.
+  intros Mod F HF HS d cup cap lo ro ls d' ys e.
+  exact (SnakeSem.unsnake_step_sound (RS Mod F HF HS) d cup cap lo ro ls d' ys e).
+Qed.
+Print Assumptions unsnake_sound.
+
+(* C07, the semantic clause: every diagram of every prefix (any yield limit) of
+   the trace of rigid.Diagram.normalize -- interchange steps of unsnake, diagrams
+   with a pair deleted, steps of the final monoidal normalisation -- denotes the
+   same morphism as the input "under every rigid functor" *)
+Theorem snake_removal_sound : forall (Mod : monoidal_model) (F : box -> M Mod),
+  respects_types Mod F -> snake_eqs Mod F (fun _ => True) ->
+  forall d limit left tr st, wf d -> rigid_ok d ->
+  rigid_trace limit d left = (tr, st) ->
+  Forall (fun x => Monoidal.interp Mod F x = Monoidal.interp Mod F d) tr.
+Proof.
+  intros Mod F HF HS d limit left tr st.
+  exact (SnakeSem.snake_removal_sound (RS Mod F HF HS) d limit left tr st).
+Qed.
+Print Assumptions snake_removal_sound.
+
+(* ... and so does the normal form, when there is one *)
+Theorem rigid_normal_form_sound : forall (Mod : monoidal_model) (F : box -> M Mod),
+  respects_types Mod F -> snake_eqs Mod F (fun _ => True) ->
+  forall fuel d left d', wf d -> rigid_ok d ->
+  rigid_normal_form fuel d left = Ok d' ->
+  Monoidal.interp Mod F d' = Monoidal.interp Mod F d.
+Proof.
+  intros Mod F HF HS fuel d left d'.
+  exact (SnakeSem.rigid_normal_form_sound_all (RS Mod F HF HS) fuel d left d').
+Qed.
+Print Assumptions rigid_normal_form_sound.
+
+(* the same with the weaker demand on the functor: the snake equations only for
+   the cups and caps that rigid.Cup / rigid.Cap accept (adjoint objects,
+   Snake.check_box), for diagrams built from such boxes (what Snake.build returns) *)
+Theorem snake_removal_sound_adjoint : forall (Mod : monoidal_model) (F : box -> M Mod) d limit left tr st,
+  respects_types Mod F -> snake_eqs Mod F adjoint_checked ->
+  wf d -> rigid_ok d -> (forall b, In b (dboxes d) -> adjoint_checked b) ->
+  rigid_trace limit d left = (tr, st) ->
+  Forall (fun x => Monoidal.interp Mod F x = Monoidal.interp Mod F d) tr.
+Proof. exact SnakeSem.snake_removal_sound_adjoint. Qed.
+Print Assumptions snake_removal_sound_adjoint.
+
+(* non-vacuity 1: C05's counting model with cups and caps counted 0 satisfies the
+   hypotheses; the denotation counts the proper boxes (4 for the obstructed snake,
+   before and after snake removal; 0 for the plain snake) *)
+Theorem rigid_functor_counting :
+  respects_types counting_model rcount_F /\ snake_eqs counting_model rcount_F (fun _ => True) /\
+  ccount (Monoidal.interp counting_model rcount_F obstructed_d) = 4%nat /\
+  ccount (Monoidal.interp counting_model rcount_F plain_d) = 0%nat.
+Proof.
+  split; [exact rcount_respects|]. split; [exact rcount_snakes|].
+  destruct rcount_obstructed as (A & B & _). split; [exact A|exact B].
+Qed.
+Print Assumptions rigid_functor_counting.
+
+(* non-vacuity 2, a genuinely rigid model: tensors over Z[i] (C09's tensor_model),
+   every wire a qubit, Cap / Cup = Tensor.caps / Tensor.cups(Dim(2), Dim(2)); the
+   plain snake denotes the 2 x 2 identity matrix, the circle Cap >> Cup the scalar 2 *)
+Theorem rigid_functor_qubit_tensors :
+  respects_types QM qubit_F /\ snake_eqs QM qubit_F (fun _ => True) /\
+  (Tensor.tcaps [2%nat] [2%nat] = Ok cap2 /\ Tensor.tcups [2%nat] [2%nat] = Ok cup2) /\
+  TFunMonoidal.val (Monoidal.interp QM qubit_F plain_d) = TFunMonoidal.id_t [2%nat] /\
+  NumpyModel.data (Tensor.tarr (TFunMonoidal.val (Monoidal.interp QM qubit_F circle_d))) = [(2, 0)].
+Proof.
+  split; [exact qubit_respects|]. split; [exact qubit_snakes|]. split; [exact caps_cups_2|].
+  destruct qubit_denotations as (A & _ & B & _). split; [exact A|exact B].
+Qed.
+Print Assumptions rigid_functor_qubit_tensors.
+
+
+(* the statement kept above since the first round, as stated (untyped carrier,
+   typing relation, SnakeLemmas.rigid_laws), any obstructions, every yield limit *)
+Theorem snake_removal_sound_untyped : snake_removal_sound_stmt.
+Proof. exact SnakeSemUntyped.snake_removal_sound_untyped. Qed.
+Print Assumptions snake_removal_sound_untyped.
+
+(* non-vacuity of `rigid_laws` beyond the one-point model: morphisms = numbers of
+   proper boxes (cups and caps count 0); 4 for the obstructed snake, 0 for the plain one *)
+Theorem rigid_laws_counting :
+  rigid_laws ucount_model /\
+  SnakeLemmas.interp ucount_model obstructed_d = 4%nat /\ SnakeLemmas.interp ucount_model plain_d = 0%nat.
+Proof. split; [exact ucount_laws|exact ucount_values]. Qed.
+Print Assumptions rigid_laws_counting.
